@@ -12,6 +12,12 @@ import json
 import os
 import sys
 
+# ast.dump differs between Python versions: always fingerprint with the interpreter the checks run under
+if __name__ == '__main__' and os.path.exists('/venv/bin/python') and \
+        os.path.realpath(sys.executable) != os.path.realpath('/venv/bin/python') and not os.environ.get('OFV_FP_REEXEC'):
+    os.environ['OFV_FP_REEXEC'] = '1'
+    os.execv('/venv/bin/python', ['/venv/bin/python'] + sys.argv)
+
 HERE = os.path.dirname(os.path.abspath(__file__))
 REPO = os.environ.get('OFV_REPO', '/repo')
 BASE = os.path.join(HERE, '..', 'fingerprints.json')
